@@ -1834,11 +1834,13 @@ func (ctx *RenderContext) toBool(val interface{}) bool {
 	switch v := val.(type) {
 	case bool:
 		return v
-	case int, int8, int16, int32, int64:
+	case int:
 		return v != 0
-	case uint, uint8, uint16, uint32, uint64:
+	case int64:
 		return v != 0
-	case float32, float64:
+	case float64:
+		// Zero is falsy whatever its numeric type (the other numeric types are
+		// handled through reflection below)
 		return v != 0
 	case string:
 		return v != ""
